@@ -818,7 +818,14 @@ class StaticVector : public StaticVectorBase<T, SizeType> {
     assert(position >= this->cbegin() && position <= this->cbegin() + this->size());
     GrowingPolicy::Check(this->size() + 1U, this->capacity());
     iterator pos = const_cast<iterator>(position);
-    emplace_n(pos, this->size() - (pos - this->begin()), std::forward<Args>(args)...);
+    SizeType nElemsToShift = static_cast<SizeType>(this->size() - (pos - this->begin()));
+    if (nElemsToShift == 0) {
+      emplace_n(pos, nElemsToShift, std::forward<Args>(args)...);
+    } else {
+      // construct first: the arguments may refer to elements that are about to be shifted
+      T newEl(std::forward<Args>(args)...);
+      insert_n(pos, nElemsToShift, std::move(newEl));
+    }
     this->incrSize();
     return pos;
   }
@@ -930,7 +937,13 @@ class DynamicVector : public DynamicVectorBaseTypeDispatcher<T, Alloc, SizeType,
       }
     } else {
       pos = const_cast<iterator>(position);
-      emplace_n(pos, nElemsToShift, std::forward<Args>(args)...);
+      if (nElemsToShift == 0) {
+        emplace_n(pos, nElemsToShift, std::forward<Args>(args)...);
+      } else {
+        // construct first: the arguments may refer to elements that are about to be shifted
+        T newEl(std::forward<Args>(args)...);
+        insert_n(pos, nElemsToShift, std::move(newEl));
+      }
     }
     this->incrSize();
     return pos;
@@ -1126,6 +1139,12 @@ class VectorImpl : public VectorDestr<T, Alloc, SizeType, WithInlineElements, Gr
 
   iterator end() noexcept { return this->begin() + this->size(); }
   const_iterator end() const noexcept { return this->begin() + this->size(); }
+
+ private:
+  /// Tells whether 'p' points to one of the elements that an insertion at 'pos' is going to shift
+  bool isShiftedBy(const T *p, const T *pos) const noexcept { return p >= pos && p < end(); }
+
+ public:
   const_iterator cend() const noexcept { return end(); }
 
   // reverse iterator support
@@ -1287,7 +1306,13 @@ class VectorImpl : public VectorDestr<T, Alloc, SizeType, WithInlineElements, Gr
     assert(position >= this->cbegin() && position <= cend());
     const_reference newV = this->adjustCapacity(static_cast<uintmax_t>(this->size()) + 1U, v, &position);
     iterator pos = const_cast<iterator>(position);
-    insert_n(pos, this->size() - (pos - this->begin()), newV);
+    if (isShiftedBy(std::addressof(newV), pos)) {
+      // 'v' is one of our elements at or after 'pos': it is about to be shifted, copy it first
+      T copyV(newV);
+      insert_n(pos, this->size() - (pos - this->begin()), std::move(copyV));
+    } else {
+      insert_n(pos, this->size() - (pos - this->begin()), newV);
+    }
     this->incrSize();
     return pos;
   }
@@ -1309,6 +1334,11 @@ class VectorImpl : public VectorDestr<T, Alloc, SizeType, WithInlineElements, Gr
       SizeType nElemsToShift = static_cast<SizeType>(this->size() - (pos - this->begin()));
       if (nElemsToShift == 0) {
         std::uninitialized_fill_n(pos, count, newV);
+      } else if (isShiftedBy(std::addressof(newV), pos)) {
+        // 'v' is one of our elements at or after 'pos': it is about to be shifted, copy it first
+        T copyV(newV);
+        shift_right(pos, nElemsToShift, count);
+        fill_after_shift(pos, nElemsToShift, count, copyV);
       } else {
         shift_right(pos, nElemsToShift, count);
         fill_after_shift(pos, nElemsToShift, count, newV);
